@@ -202,6 +202,14 @@ Qed.
 Lemma Forall2_len {A B} (R : A -> B -> Prop) l l' : Forall2 R l l' -> length l = length l'.
 Proof. induction 1; cbn [length]; congruence. Qed.
 
+Lemma Forall2_cons_inv_l {A B} (R : A -> B -> Prop) a l l' :
+  Forall2 R (a :: l) l' -> exists b l'', R a b /\ Forall2 R l l'' /\ l' = b :: l''.
+Proof. intro H. inversion H; subst. eauto. Qed.
+
+Lemma Forall2_impl' {A B} (R1 R2 : A -> B -> Prop) :
+  (forall a b, R1 a b -> R2 a b) -> forall l l', Forall2 R1 l l' -> Forall2 R2 l l'.
+Proof. intros H l l'. induction 1; constructor; auto. Qed.
+
 (* ------------------------------------------------------------------------------------------ *)
 Section Proofs.
 Variables MAX SB IMAX IB META : N.
@@ -261,7 +269,7 @@ Qed.
 
 (* ---------- the reader's stack seen from the writer's ---------- *)
 (* prophecy for an open hole: the (size, inner chunks) that will be patched in *)
-Definition hv : Type := (N * N)%type.
+Local Notation hv := (N * N)%type.
 Definition dec_inner (i : N) : N := le_val (le_bytes (N.to_nat IB) (N.land i IMAX)).
 Definition rsib_of (s : sib) (v : hv) : sib :=
   mk_sib (fst v - written s) (if fst v =? MAX then 1 else 0) (dec_inner (snd v)).
@@ -492,7 +500,7 @@ Proof.
       rewrite Forall_map. eapply Forall_impl; [|exact Hin]. unfold inb, disj. intros a Ha. lia.
     + constructor; [cbn [written]; lia|]. rewrite Forall_map. exact Hw.
   - intros h1 H1. cbn [w_sibs] in H1. inversion H1 as [|s0 vN l0 h' HvN Hrest]; subst.
-    apply Forall2_map_l in Hrest.
+    apply (proj1 (Forall2_map_l hok inc_inner _ _)) in Hrest.
     exists h', (meta_of (fst vN) (snd vN)). split; [exact Hrest|]. split.
     + cbn [w_sibs w_out fill position].
       rewrite Hlen, Nat2N.id. rewrite patch_end by (rewrite hole_length, meta_of_length; reflexivity).
@@ -518,10 +526,315 @@ Proof.
     rewrite meta_of_length. unfold inb in Hs. lia. }
   split.
   - unfold winv, holes_ok. cbn [w_len w_out w_sibs]. rewrite Lp. repeat split; assumption.
-  - intros h' H'. cbn [w_sibs] in H'.
+  - intros h' H'. cbn [w_sibs] in H'. rewrite Es.
     exists ((written s, inner_chunks s) :: h'), []. split; [|split].
     + constructor; [|exact H']. unfold hok. cbn [fst]. lia.
     + cbn [w_sibs w_out fill fst snd]. rewrite app_nil_r. reflexivity.
     + intro rest. unfold lift, lyb_read_stop_siblings. cbn [r_sibs r_in rview app w_sibs].
       unfold rsib_of at 1. cbn [written fst]. rewrite N.sub_diag. cbn [N.eqb]. reflexivity.
+Qed.
+
+(* ---------- small facts used by the loop lemmas ---------- *)
+Lemma no_assert_w T sibs :
+  Forall (fun s => written s + T <= MAX) sibs ->
+  existsb (fun s => MAX <? written s) (map (add_written T) sibs) = false.
+Proof.
+  induction 1 as [|s l Hs Hl IH]; cbn [map existsb]; [reflexivity|].
+  rewrite IH, orb_false_r. unfold add_written. cbn [written]. lia.
+Qed.
+
+Lemma rview_no_assert W h :
+  Forall2 hok W h -> existsb (fun s => MAX <? written s) (rview W h) = false.
+Proof.
+  induction 1 as [|s v W h [H1 H2] Hr IH]; cbn [rview existsb]; [reflexivity|].
+  rewrite IH, orb_false_r. unfold rsib_of. cbn [written]. lia.
+Qed.
+
+Lemma hok_add T W h : Forall2 hok (map (add_written T) W) h -> Forall2 (hokT T) W h.
+Proof. intro H. apply (proj1 (Forall2_map_l hok (add_written T) _ _)) in H. exact H. Qed.
+
+Lemma hokT_add T W h : Forall2 (hokT T) W h -> Forall2 hok (map (add_written T) W) h.
+Proof. intro H. apply (proj2 (Forall2_map_l hok (add_written T) _ _)). exact H. Qed.
+
+Lemma hokT_hok T W h : Forall2 (hokT T) W h -> Forall2 hok W h.
+Proof.
+  apply Forall2_impl'. unfold hokT, hok. intros a b [H1 H2]. split; lia.
+Qed.
+
+Lemma hok_hokT0 W h : Forall2 hok W h -> Forall2 (hokT 0) W h.
+Proof.
+  apply Forall2_impl'. unfold hokT, hok. intros a b [H1 H2]. split; lia.
+Qed.
+
+Lemma rview_sub T W h :
+  Forall2 (hokT T) W h -> map (sub_written T) (rview W h) = rview (map (add_written T) W) h.
+Proof.
+  induction 1 as [|s v W h [H1 H2] Hr IH]; cbn [rview map]; [reflexivity|].
+  rewrite IH. f_equal. unfold sub_written, rsib_of, sub64, add_written. cbn [written position inner_chunks].
+  destruct (T <=? fst v - written s) eqn:E; [|lia]. f_equal. lia.
+Qed.
+
+Lemma take_if T (l : bytes) :
+  (if T =? 0 then Some ([], l) else take (N.to_nat T) l) = take (N.to_nat T) l.
+Proof. destruct (T =? 0) eqn:E; [|reflexivity]. apply N.eqb_eq in E. subst. reflexivity. Qed.
+
+Lemma sub_if T (l : list sib) :
+  (if T =? 0 then l else map (sub_written T) l) = map (sub_written T) l.
+Proof. destruct (T =? 0) eqn:E; [|reflexivity]. apply N.eqb_eq in E. subst. symmetry. apply sub_written_0. Qed.
+
+Lemma cnt_if T c : (if T =? 0 then c else c - T) = c - T.
+Proof. destruct (T =? 0) eqn:E; [|reflexivity]. apply N.eqb_eq in E. subst. lia. Qed.
+
+Lemma skip_if T (l : bytes) : (if T =? 0 then l else skipn (N.to_nat T) l) = skipn (N.to_nat T) l.
+Proof. destruct (T =? 0) eqn:E; [|reflexivity]. apply N.eqb_eq in E. subst. reflexivity. Qed.
+
+(* the state after the data part of an iteration *)
+Definition stA (st : wstate) (T : N) (buf : bytes) : wstate :=
+  mk_w (map (add_written T) (w_sibs st)) (w_out st ++ firstn (N.to_nat T) buf) (w_len st + T).
+
+Lemma stA_if st T buf : (if T =? 0 then st else stA st T buf) = stA st T buf.
+Proof.
+  destruct (T =? 0) eqn:E; [|reflexivity]. apply N.eqb_eq in E. subst. unfold stA.
+  rewrite add_written_0. cbn [N.to_nat firstn]. rewrite app_nil_r, N.add_0_r. destruct st; reflexivity.
+Qed.
+
+Lemma stA_inv st T buf :
+  winv st -> Forall (fun s => written s + T <= MAX) (w_sibs st) -> T <= blen buf ->
+  winv (stA st T buf).
+Proof.
+  intros (Hlen & [Hin Hdis] & Hw) HT Hb. unfold winv, holes_ok, stA. cbn [w_len w_out w_sibs].
+  split; [rewrite app_length, firstn_length; lia|]. split; [split|].
+  - rewrite Forall_map. eapply Forall_impl; [|exact Hin]. unfold inb. cbn [add_written position]. intros a Ha. lia.
+  - rewrite map_map. cbn [add_written position]. exact Hdis.
+  - rewrite Forall_map. exact HT.
+Qed.
+
+(* ---------- one iteration of the reader loop, matched to the writer's scan ---------- *)
+Definition more_data (data : bytes) (r : res (bytes * rstate)) : res (bytes * rstate) :=
+  match r with Ok (more, st') => Ok (data ++ more, st') | Err e => Err e end.
+
+Lemma rscan_of_wscan T c sibs h fw :
+  T <= c -> Forall2 (hokT T) sibs h -> wscan sibs c = (T, fw) -> rscan (rview sibs h) c = (T, fw).
+Proof.
+  intros HT H Ew. destruct (rscan (rview sibs h) c) as [tr fr] eqn:Er.
+  destruct (scan_sim T c sibs h HT H _ _ _ _ Ew Er) as (_ & _ & I3 & I4).
+  rewrite (proj1 I3 eq_refl), (I4 eq_refl). reflexivity.
+Qed.
+
+Lemma read_iter_plain f count sibs h data rest' :
+  count <> 0 -> Forall2 (hokT count) sibs h -> wscan sibs count = (count, None) ->
+  length data = N.to_nat count ->
+  read_loop (S f) count (mk_r (rview sibs h) (data ++ rest')) =
+  more_data data (read_loop f (count - count) (mk_r (rview (map (add_written count) sibs) h) rest')).
+Proof.
+  intros Hc H Ew Hd. cbn [LybChunk.read_loop r_sibs r_in].
+  rewrite (rscan_of_wscan count count sibs h None) by (try assumption; lia).
+  destruct (count =? 0) eqn:Ec; [lia|].
+  rewrite <- Hd, take_app.
+  rewrite (rview_sub _ _ _ H).
+  rewrite (rview_no_assert _ _ (hokT_add _ _ _ H)), andb_false_r.
+  reflexivity.
+Qed.
+
+Lemma read_iter_close f count tw k inner s outer hi ic ho vN p data rest' :
+  length outer = k -> length inner = length hi ->
+  Forall2 (hokT tw) (inner ++ s :: outer) (hi ++ (MAX, ic) :: ho) ->
+  tw <= count -> wscan (inner ++ s :: outer) count = (tw, Some k) ->
+  length data = N.to_nat tw -> fst vN <= MAX ->
+  read_loop (S f) count
+    (mk_r (rview (inner ++ s :: outer) (hi ++ (MAX, ic) :: ho)) (data ++ meta_of (fst vN) (snd vN) ++ rest')) =
+  more_data data
+    (read_loop f (count - tw)
+       (mk_r (rview (map (add_written tw) inner ++ mk_sib 0 p 0 :: map inc_inner (map (add_written tw) outer))
+                    (hi ++ vN :: ho)) rest')).
+Proof.
+  intros Hk Hli H Htw Ew Hd HvN. cbn [LybChunk.read_loop r_sibs r_in].
+  rewrite (rscan_of_wscan tw count _ _ (Some k)) by assumption.
+  rewrite take_if, sub_if, cnt_if. rewrite <- Hd, take_app.
+  rewrite (rview_sub _ _ _ H).
+  rewrite (rview_no_assert _ _ (hokT_add _ _ _ H)), andb_false_r.
+  rewrite read_meta_ok by exact HvN.
+  rewrite map_app. cbn [map].
+  assert (Hlo : length outer = length ho).
+  { apply Forall2_len in H. rewrite !app_length in H. cbn [length] in H. lia. }
+  rewrite !rview_app by (rewrite ?map_length; exact Hli). cbn [rview].
+  rewrite map_levels_set by (rewrite rview_length; rewrite ?map_length; [exact Hk|exact Hlo]).
+  rewrite (rview_map_pos inc_inner) by reflexivity.
+  unfold rsib_of. cbn [written]. rewrite N.sub_0_r. reflexivity.
+Qed.
+
+(* ---------- the writer side of an iteration that closes the chunk of level [s] ---------- *)
+Definition st3 (inner : list sib) (s : sib) (outer : list sib) (out : bytes) (len tw : N) (data : bytes) : wstate :=
+  mk_w (map (add_written tw) inner ++ mk_sib 0 (len + tw) 0 :: map inc_inner (map (add_written tw) outer))
+       (write_sibling_meta (out ++ data) (add_written tw s) ++ hole)
+       (len + tw + META).
+
+Lemma close_inv inner s outer out len tw data :
+  winv (mk_w (inner ++ s :: outer) out len) ->
+  Forall (fun t => written t + tw <= MAX) (inner ++ s :: outer) ->
+  length data = N.to_nat tw ->
+  winv (st3 inner s outer out len tw data).
+Proof.
+  intros (Hlen & [Hin Hdis] & Hw) HT Hd. cbn [w_len w_out w_sibs] in *.
+  apply Forall_app in Hin. destruct Hin as [Hin_i Hin_so]. inversion Hin_so as [|? ? Hin_s Hin_o]; subst.
+  rewrite map_app in Hdis. cbn [map] in Hdis.
+  destruct (pdisj_mid _ _ _ Hdis) as (D1 & D2 & D3 & D4).
+  apply Forall_app in HT. destruct HT as [HT_i HT_so]. inversion HT_so as [|? ? HT_s HT_o]; subst.
+  unfold inb in Hin_s.
+  unfold winv, holes_ok, st3. cbn [w_len w_out w_sibs].
+  assert (Lp : length (write_sibling_meta (out ++ data) (add_written tw s)) = length (out ++ data)).
+  { unfold LybChunk.write_sibling_meta. apply patch_length. unfold LybChunk.meta_bytes.
+    rewrite meta_of_length, app_length. cbn [add_written position]. lia. }
+  split; [rewrite app_length, Lp, app_length, hole_length; lia|]. split; [split|].
+  - apply Forall_app. split; [|constructor].
+    + rewrite Forall_map. eapply Forall_impl; [|exact Hin_i]. unfold inb. cbn [add_written position]. intros a Ha. lia.
+    + unfold inb. cbn [position]. lia.
+    + rewrite !Forall_map. eapply Forall_impl; [|exact Hin_o]. unfold inb. cbn [inc_inner add_written position]. intros a Ha. lia.
+  - rewrite map_app. cbn [map position]. rewrite !map_map. cbn [inc_inner add_written position].
+    apply (pdisj_replace _ (position s)); [exact Hdis| |].
+    + rewrite Forall_map. eapply Forall_impl; [|exact Hin_i]. unfold inb, disj. intros a Ha. lia.
+    + rewrite Forall_map. eapply Forall_impl; [|exact Hin_o]. unfold inb, disj. intros a Ha. lia.
+  - apply Forall_app. split; [|constructor].
+    + rewrite Forall_map. exact HT_i.
+    + cbn [written]. lia.
+    + rewrite !Forall_map. exact HT_o.
+Qed.
+
+Lemma close_fill inner s outer out len tw data hi vN ho :
+  winv (mk_w (inner ++ s :: outer) out len) ->
+  written s + tw = MAX -> length data = N.to_nat tw -> length inner = length hi ->
+  fill (w_sibs (st3 inner s outer out len tw data)) (hi ++ vN :: ho) (w_out (st3 inner s outer out len tw data)) =
+  fill (inner ++ s :: outer) (hi ++ (MAX, inner_chunks s) :: ho) out ++ data ++ meta_of (fst vN) (snd vN).
+Proof.
+  intros (Hlen & [Hin Hdis] & Hw) Hs Hd Hli. cbn [w_len w_out w_sibs] in *.
+  apply Forall_app in Hin. destruct Hin as [Hin_i Hin_so].
+  pose proof (Forall_inv Hin_so) as Hin_s. pose proof (Forall_inv_tail Hin_so) as Hin_o.
+  rewrite map_app in Hdis. cbn [map] in Hdis.
+  destruct (pdisj_mid _ _ _ Hdis) as (D1 & D2 & D3 & D4).
+  unfold inb in Hin_s.
+  unfold st3. cbn [w_sibs w_out].
+  set (Ms := meta_of MAX (inner_chunks s)).
+  assert (EMs : meta_bytes (add_written tw s) = Ms).
+  { unfold LybChunk.meta_bytes, Ms. cbn [add_written written inner_chunks]. rewrite Hs. reflexivity. }
+  assert (LMs : length Ms = N.to_nat META) by apply meta_of_length.
+  unfold LybChunk.write_sibling_meta. rewrite EMs. cbn [add_written position].
+  set (ps := N.to_nat (position s)).
+  (* right-hand side *)
+  rewrite (fill_app_sibs inner hi) by exact Hli. cbn [fill fst snd]. fold Ms. fold ps.
+  set (Fi := fill inner hi out).
+  assert (LFi : length Fi = length out).
+  { apply fill_length. rewrite <- Hlen. exact Hin_i. }
+  set (Y := patch ps Ms Fi).
+  assert (LY : length Y = length out).
+  { unfold Y. rewrite patch_length; [exact LFi|]. unfold ps. lia. }
+  (* left-hand side *)
+  rewrite (fill_app_sibs (map (add_written tw) inner) hi) by (rewrite map_length; exact Hli).
+  rewrite fill_map_pos by reflexivity.
+  assert (E1 : fill inner hi (patch ps Ms (out ++ data) ++ hole) = (Y ++ data) ++ hole).
+  { rewrite fill_app.
+    2:{ rewrite patch_length by (rewrite app_length; unfold ps; lia).
+        eapply inb_mono; [|exact Hin_i]. rewrite app_length. lia. }
+    f_equal. unfold ps. rewrite fill_patch_comm; try assumption.
+    - fold ps. rewrite fill_app by (rewrite <- Hlen; exact Hin_i). fold Fi.
+      unfold Y. apply patch_app_l. unfold ps. lia.
+    - rewrite app_length. lia.
+    - eapply inb_mono; [|exact Hin_i]. rewrite app_length. lia.
+    - rewrite Forall_map in D1. exact D1. }
+  rewrite E1. cbn [fill position].
+  replace (N.to_nat (len + tw)) with (length (Y ++ data)) by (rewrite app_length; lia).
+  rewrite patch_end by (rewrite hole_length, meta_of_length; reflexivity).
+  rewrite !fill_map_pos by reflexivity.
+  rewrite <- app_assoc. apply fill_app.
+  rewrite LY, <- Hlen. exact Hin_o.
+Qed.
+
+(* ---------- the loop of lyb_write() against the loop of lyb_read() ---------- *)
+Lemma loop_sim : forall fuel buf count st st1,
+  winv st -> count = blen buf ->
+  write_loop fuel buf count st = Ok st1 ->
+  winv st1 /\
+  forall h', Forall2 hok (w_sibs st1) h' ->
+  exists h tail, Forall2 hok (w_sibs st) h /\
+    fill (w_sibs st1) h' (w_out st1) = fill (w_sibs st) h (w_out st) ++ tail /\
+    forall rest, read_loop fuel count (mk_r (rview (w_sibs st) h) (tail ++ rest)) =
+                 Ok (buf, mk_r (rview (w_sibs st1) h') rest).
+Proof.
+  induction fuel as [|f IH]; intros buf count st st1 Hinv Hc E; [discriminate|].
+  cbn [LybChunk.write_loop] in E.
+  destruct (wscan (w_sibs st) count) as [tw full] eqn:Ew.
+  pose proof Hinv as (Hlen & Hholes & Hw).
+  destruct (wscan_facts _ _ Hw _ _ Ew) as (Htw & HT & Hfull).
+  fold (stA st tw buf) in E. rewrite !stA_if, !skip_if, !cnt_if in E.
+  assert (Hna : existsb (fun s => MAX <? written s) (w_sibs (stA st tw buf)) = false)
+    by (apply no_assert_w; exact HT).
+  rewrite Hna, andb_false_r in E.
+  destruct full as [k|].
+  - (* the chunk of level k is closed *)
+    destruct Hfull as (inner & s & outer & Es & Hk & Hs & Hinner).
+    destruct st as [sibs out len]. cbn [w_sibs w_out w_len] in Es, Ew, HT, Hlen, Hw |- *. subst sibs.
+    unfold stA in E. cbn [w_sibs w_out w_len] in E.
+    rewrite map_app in E. cbn [map] in E.
+    assert (Hk' : length (map (add_written tw) outer) = k) by (rewrite map_length; exact Hk).
+    rewrite <- Hk' in E.
+    rewrite get_level_mid in E.
+    rewrite map_levels_set in E by reflexivity.
+    rewrite exists_level_outer in E by reflexivity.
+    destruct (existsb (fun s0 : sib => inner_chunks s0 =? IMAX) (map (add_written tw) outer)) eqn:Elog;
+      [discriminate|].
+    rewrite map_levels_outer in E by reflexivity.
+    set (data := firstn (N.to_nat tw) buf) in *.
+    change (write_loop f (skipn (N.to_nat tw) buf) (count - tw) (st3 inner s outer out len tw data) = Ok st1) in E.
+    assert (Hd : length data = N.to_nat tw) by (unfold data; rewrite firstn_length; lia).
+    pose proof (close_inv inner s outer out len tw data Hinv HT Hd) as Hinv3.
+    assert (Hc3 : count - tw = blen (skipn (N.to_nat tw) buf)) by (rewrite skipn_length; lia).
+    destruct (IH _ _ _ _ Hinv3 Hc3 E) as [Hinv1 Hsim].
+    split; [exact Hinv1|]. intros h' Hh'.
+    destruct (Hsim h' Hh') as (h3 & tail3 & Hh3 & Hfill3 & Hread3).
+    unfold st3 in Hh3. cbn [w_sibs] in Hh3.
+    apply Forall2_app_inv_l in Hh3. destruct Hh3 as (hi & hr & Hhi & Hhr & Eh3).
+    apply Forall2_cons_inv_l in Hhr. destruct Hhr as (vN & ho & HvN & Hho & Ehr).
+    rewrite Ehr in Eh3. clear Ehr hr. rewrite Eh3 in Hfill3, Hread3. clear Eh3 h3.
+    exists (hi ++ (MAX, inner_chunks s) :: ho), (data ++ meta_of (fst vN) (snd vN) ++ tail3).
+    assert (Hli : length inner = length hi).
+    { apply Forall2_len in Hhi. rewrite map_length in Hhi. exact Hhi. }
+    assert (HhT : Forall2 (hokT tw) (inner ++ s :: outer) (hi ++ (MAX, inner_chunks s) :: ho)).
+    { apply Forall2_app; [apply hok_add; exact Hhi|]. constructor; [unfold hokT; cbn [fst]; lia|].
+      apply hok_add. apply (proj1 (Forall2_map_l hok inc_inner _ _)) in Hho. exact Hho. }
+    split; [exact (hokT_hok _ _ _ HhT)|]. split.
+    + rewrite Hfill3. cbn [w_sibs w_out].
+      rewrite (close_fill inner s outer out len tw data hi vN ho Hinv Hs Hd Hli).
+      rewrite <- !app_assoc. reflexivity.
+    + intro rest. cbn [w_sibs]. rewrite <- !app_assoc.
+      destruct HvN as [_ HvN].
+      rewrite (read_iter_close f count tw k inner s outer hi (inner_chunks s) ho vN (len + tw) data (tail3 ++ rest)
+                 Hk Hli HhT Htw Ew Hd HvN).
+      unfold st3 in Hread3. cbn [w_sibs] in Hread3. rewrite Hread3. cbn [more_data].
+      unfold data. rewrite firstn_skipn. reflexivity.
+  - (* no chunk is closed *)
+    destruct Hfull as [Etw Hlt]. subst tw.
+    destruct (count =? 0) eqn:Ec.
+    + inversion E; subst st1; clear E. apply N.eqb_eq in Ec.
+      assert (Eb : buf = []) by (destruct buf; [reflexivity|cbn [length] in Hc; lia]).
+      split; [exact Hinv|]. intros h' Hh'. exists h', []. split; [exact Hh'|].
+      split; [rewrite app_nil_r; reflexivity|].
+      intro rest. cbn [LybChunk.read_loop r_sibs r_in app].
+      rewrite (rscan_of_wscan count count _ _ None); [| lia | rewrite Ec; apply hok_hokT0; exact Hh' | exact Ew].
+      rewrite Ec. cbn [N.eqb]. rewrite Eb. reflexivity.
+    + assert (HinvA : winv (stA st count buf)) by (apply stA_inv; [exact Hinv|exact HT|lia]).
+      assert (HcA : count - count = blen (skipn (N.to_nat count) buf)) by (rewrite skipn_length; lia).
+      destruct (IH _ _ _ _ HinvA HcA E) as [Hinv1 Hsim].
+      split; [exact Hinv1|]. intros h' Hh'.
+      destruct (Hsim h' Hh') as (hA & tailA & HhA & HfillA & HreadA).
+      unfold stA in HhA, HfillA, HreadA. cbn [w_sibs w_out] in HhA, HfillA, HreadA.
+      apply hok_add in HhA.
+      assert (Ef : firstn (N.to_nat count) buf = buf) by (apply firstn_all2; lia).
+      rewrite Ef in HfillA.
+      exists hA, (buf ++ tailA). split; [exact (hokT_hok _ _ _ HhA)|]. split.
+      * rewrite HfillA. rewrite fill_map_pos by reflexivity.
+        rewrite fill_app by (rewrite <- Hlen; apply Hholes).
+        rewrite <- app_assoc. reflexivity.
+      * intro rest. rewrite <- app_assoc.
+        rewrite read_iter_plain; [| apply N.eqb_neq; exact Ec | exact HhA | exact Ew | lia].
+        rewrite HreadA. cbn [more_data].
+        rewrite skipn_all2 by lia. rewrite app_nil_r. reflexivity.
 Qed.
